@@ -5,7 +5,8 @@ From Verif Require Import Base Dispatch DispatchVM DispatchPoly DispatchTorch Di
   DispatchInject
   DispatchLoader
   DispatchConst
-  DispatchCache.
+  DispatchCache
+  DispatchPyEval.
 Import ListNotations.
 Open Scope string_scope.
 
@@ -17,7 +18,8 @@ Definition handlers : list (string -> list sexp -> option string) :=
    handle_inject;
    handle_loader;
    handle_const;
-   handle_cache].
+   handle_cache;
+   handle_pyeval].
 
 Fixpoint first_some (hs : list (string -> list sexp -> option string)) (cmd : string)
          (args : list sexp) : option string :=
